@@ -25,7 +25,7 @@ import (
 
 var c20Times = []string{"<0:00", "<23:59", "<24:00", "0:00", "12:00am", "12:30am", "1:00am", "11:59", "11:59am", "12:00pm", "12:00", "12:30pm", "12:59pm", "1:00pm", "13:00", "11:59pm", "23:59", "24:00", "0:00>", "12:15am>", "12:45pm>", "23:59>"}
 
-var c20Alphabet = []string{"'", "\"", "\\", "\x01", "\x1f", "\x7f", "<", ">", "&", "é", "中", " ", "\xff", "#a", " ", "\\u0041", "\xe4\xb8"}
+var c20Alphabet = []string{"'", "\"", "\\", "\x01", "\x1f", "\x7f", "<", ">", "&", "é", "中", " ", "\xff", "#a", " ", "\\u0041", "\xe4\xb8", "\\u003c"}
 
 func c20Families(tier fw.Tier) []docFamily {
 	return cachedFamilies("c20/"+string(tier), func() []docFamily {
@@ -66,7 +66,7 @@ func init() {
 		ID:    "C20",
 		Title: "The JSON output is well-formed and faithful to the data",
 		Rule: "documents: FA1 (one record x value menus), the full formatting product FB, every single-edit document FD1 (valid and invalid), every ordered pair of " + fmt.Sprint(len(c20Times)) + " boundary time literals as a range (+ open range), the " + fmt.Sprint(c02NowCount()) + " clock-relative documents of C02-F3 with `json --now` at their clock, and ALL strings of 1..3 (quick) / 1..4 (thorough) symbols over " +
-			"{\", \\, 0x01, 0x1F, 0x7F, <, >, &, é, 中, U+2028, 0xFF, #a, space, the six characters \\u0041, a truncated UTF-8 sequence} placed in record summary, entry summary, continuation line and tag value; " +
+			"{\", \\, 0x01, 0x1F, 0x7F, <, >, &, é, 中, U+2028, 0xFF, #a, space, the six characters \\u0041 and \\u003c, a truncated UTF-8 sequence} placed in record summary, entry summary, continuation line and tag value; " +
 			"each x {plain, --pretty, --sort asc, --sort desc, --date D, --tag a (documents containing #a)}. non-trivial = klog produced output; distinct by text hash.",
 		Assumptions: []string{
 			"specmodel.ParseJSON: strict RFC 8259 parser (valid UTF-8, defined escapes only, no raw control characters, no duplicate keys, nothing after the value)",
